@@ -29,9 +29,9 @@ CHECKS = {
  "C07": dict(level="exploration", engine="loopsim", ref="5/C07",
     technique="deterministic simulation: several workspaces at different paths sharing one archive, seeded invocation histories with upload/download modes and emulated hosts, byzantine archive faults; oracle = local clean build by content",
     text="Every successful invocation with downloads must yield results equal (by content) to a purely local clean build of its own project state on its own emulated host; identical state+host workspaces must download without building; damaged artifacts may fail a build but never yield different results. Sampling, not proof.",
-    note="Live-build-id mispredictions are not exercised (no remote SCM in these worlds); host identity is a file read by fingerprint scripts."),
+    note="Live-build-id predictions (git ls-remote, upstream moving right after the prediction, uploader with a modified checkout) are exercised by a dedicated local-git scenario; host identity is a file read by fingerprint scripts."),
  "C12": dict(level="exploration", engine="loopsim+gitworld", ref="5/C12",
-    technique="deterministic simulation: turn-taking history of upstream maintainer, recipe author, user and Bob (real git under the virtual-time loop) with upstream outages; convergence vs fresh checkout and marker-based no-loss oracle",
+    technique="deterministic simulation: turn-taking history of upstream maintainer, recipe author, user and Bob (real git under the virtual-time loop) with upstream outages, plus url SCM location histories; convergence vs fresh checkout and marker-based no-loss oracle",
     text="Seeded and directed histories of upstream commits/tags/force-pushes, SCM spec edits, user edits carrying unique markers and Bob dev/clean invocations (develop and release mode); untouched workspaces must equal a fresh checkout after every successful build and every marker must remain reachable (working tree, attic or any ref) after every invocation.",
     note="git is trusted; reflog-only reachability counts as lost; forced clean is excluded as the statement says."),
  "C14": dict(level="exploration", engine="loopsim", ref="5/C14",
